@@ -206,6 +206,20 @@ def truncWitness : Input :=
   { T := ['E'], kind := ⟨false, 8⟩,
     blocks := [[{ names := [['E', 'A']], ty := some ['E'], hasVals := true, exprTy := none, vals := [44] }]] }
 
+/-- `type Taille int; const ( TaillePetit Taille = iota; TailleTrèsGrand )`: names are compared character by
+    character, byte length and rune count play no role -/
+def uniExample : Input :=
+  { T := ['T', 'a', 'i', 'l', 'l', 'e'], kind := ⟨true, 64⟩,
+    blocks := [[{ names := [['T', 'a', 'i', 'l', 'l', 'e', 'P', 'e', 't', 'i', 't']], ty := some ['T', 'a', 'i', 'l', 'l', 'e'],
+                  hasVals := true, exprTy := none, vals := [0] },
+                { names := [['T', 'a', 'i', 'l', 'l', 'e', 'T', 'r', 'è', 's', 'G', 'r', 'a', 'n', 'd']], ty := none,
+                  hasVals := false, exprTy := none, vals := [1] }]] }
+
+example : WF uniExample = true ∧
+    unmarshalText (vmOf uniExample) ['T', 'r', 'è', 's', 'G', 'r', 'a', 'n', 'd'] 7 = (none, 1) ∧
+    scan (vmOf uniExample) (.bytes ['T', 'r', 'è', 's', 'G', 'r', 'a', 'n', 'd']) 7 = (none, 1) ∧
+    unmarshalText (vmOf uniExample) ['T', 'r', 'e', 's', 'G', 'r', 'a', 'n', 'd'] 7 = (some .notFound, 7) := by decide
+
 /-! ### non-vacuity -/
 
 example : WF truncWitness = true ∧ truncWitness.kind.has 44 = true ∧
